@@ -183,7 +183,8 @@ fn modular_random(log: &mut Log, rng: &mut Rng, max_words: usize) {
 // ------------------------------------------------------------------------------------ clone machine
 const NREG: usize = 4;
 fn clone_machine(log: &mut Log, rng: &mut Rng, steps: u64) {
-    let sizes = [0usize, 1, 2, 2, 3, 3, 4, 5, 9, 17, 40];
+    // many near-equal word counts: clone_from reuses the destination buffer only when its capacity fits the source
+    let sizes = [0usize, 1, 2, 2, 3, 3, 3, 4, 4, 4, 5, 5, 6, 6, 7, 8, 9, 10, 11, 12, 17, 40];
     let mut regs: Vec<IBig> = (0..NREG).map(|_| IBig::ZERO).collect();
     let snapshot = |regs: &Vec<IBig>| Value::Array(regs.iter().map(enc_i).collect());
     log.ev(json!({"prop": "C15", "fam": "clone", "op": "init", "dst": 1, "src": 1, "k": 0, "v": enc_i(&IBig::ZERO), "regs": snapshot(&regs)}));
@@ -193,7 +194,7 @@ fn clone_machine(log: &mut Log, rng: &mut Rng, steps: u64) {
         let k = 1 + rng.below(200) as usize;
         let kind = rng.below(12);
         let mut v = IBig::ZERO;
-        let op = match kind {
+        let step = guarded(|| match kind {
             0 | 1 => {
                 let nbytes = 8 * *rng.pick(&sizes);
                 let pat = rng.next();
@@ -241,6 +242,10 @@ fn clone_machine(log: &mut Log, rng: &mut Rng, steps: u64) {
                 regs[dst] -= &c;
                 "sub_self"
             }
+        });
+        let op = match step {
+            Ok(op) => op,
+            Err(_) => "panicked",
         };
         log.ev(json!({"prop": "C15", "fam": "clone", "op": op, "dst": dst + 1, "src": src + 1, "k": k, "v": enc_i(&v), "regs": snapshot(&regs)}));
     }
@@ -255,10 +260,14 @@ fn main() {
         clone_machine(&mut log, &mut rng, args.n);
     } else {
         for i in 0..args.n {
-            match i % 4 {
+            // a library panic while building operands must not take the driver down
+            let r = guarded(|| match i % 4 {
                 0 | 1 => float_random(&mut log, &mut rng),
                 2 => ratio_random(&mut log, &mut rng, args.max_words.min(6)),
                 _ => modular_random(&mut log, &mut rng, args.max_words.min(6)),
+            });
+            if let Err(m) = r {
+                log.ev(json!({"prop": "C15", "fam": "driver", "op": "operand-construction-panicked", "msg": m, "outs": []}));
             }
         }
     }
